@@ -259,7 +259,7 @@ def main(prop, tier):
                 items = rng.sample(items, budget)
                 rep.cov['exhaustive'] = False
             for n, it in enumerate(items):
-                jobs.append({'id': '%s/%d' % (name, n), 'prog': it['prog'], 'nv': it['nv'], 'nq': it['nq'],
+                jobs.append({'id': '%s/%d' % (name, n), 'prog': it['prog'], 'nv': it['nv'], 'nq': it['nq'], 'accept': it['accept'],
                              'sites': spec['sites'], 'seed': core.seed() + n,
                              'ovrs': passes.override_choices(it['prog'], rng, [0, 2, 3, 1], 2)[1:] if 'run_ovr' in spec['sites'] else []})
                 if prop == 'C13' and "'par': True" in repr(it['prog']['body']):
@@ -316,6 +316,12 @@ def main(prop, tier):
                     'failing_clauses': verdicts.get(r['id'], {}).get('clauses', [])})
     rep.assumptions += ['projection / renderer trusted', 'float state vectors are converted to exact form with tolerance 1e-9',
                         'gate matrices of the exact family: harness/gates.py must agree with JaqalExec!Mat (validated by the vector clause itself)']
+    if prop == 'C15':
+        # a consumer of the result views: validation comments written from an execution, read back and compared
+        from . import valid
+        vj = [j for j in jobs if j.get('accept')]
+        valid.stage(rep, wd, rng.sample(vj, min(len(vj), 500 if tier == 'quick' else 8000)), tier)
+        rep.phase('validation_comments')
     core.cleanup(prop)
     return rep.finish()
 
